@@ -214,7 +214,8 @@ PROPS = {
                 worlds=lambda t, s: [W.gen_world_dup_path(Rng(s, "c12-dup", 0))] + worlds_default(t, s, "c12", 300, 6000, tweak_threads)
                                     + partial_write_worlds(t, s, "c12-partial")),
     "C14": dict(module="TB.Props.C14", theorems=["C14_abort", "C14_pass2_ops", "C14_noflag"], clauses=["c14-"],
-                worlds=lambda t, s: [W.gen_world_c14(Rng(s, "c14", i)) for i in range(400 if t == "quick" else 8000)]),
+                worlds=lambda t, s: [W.gen_world_dup_path_resize(Rng(s, "c14-dup", i)) for i in range(40 if t == "quick" else 400)]
+                                    + [W.gen_world_c14(Rng(s, "c14", i)) for i in range(400 if t == "quick" else 8000)]),
     "C15": dict(module="TB.Props.C15", theorems=["C15_sum", "C15_run", "C15_dedup"], clauses=["c15-"], worlds=lambda t, s: worlds_default(t, s, "c15", 300, 6000, tweak_threads),
                 runner=lambda ws: run_with_cli(ws, 60 if len(ws) <= 1000 else 600), with_bin=True),
     "C16": dict(module="TB.Props.C16", theorems=["C16_empty", "C16_validate", "C16_piece_total_partial"], clauses=["c16-", "c03-", "c12-"],
